@@ -168,6 +168,17 @@ func (c *FCtx) oblige(st *State, kind, name string, pos token.Pos, goal *Term, t
 	c.Obls = append(c.Obls, o)
 }
 
+// widen zero-extends narrow bit-vector measures to the index width.
+func (c *FCtx) widen(t *Term) *Term {
+	if t.Sort.IsBV() && t.Sort.BVWidth() < 64 {
+		return bvZext(64-t.Sort.BVWidth(), t)
+	}
+	if t.Op == "int" && c.Mode == ModeBV {
+		return BVC(t.Val, 64)
+	}
+	return t
+}
+
 func splitGoal(g *Term) []*Term {
 	switch g.Op {
 	case "and":
@@ -581,6 +592,7 @@ func (e *Env) execAssign(x *ast.AssignStmt, st *State) {
 			return
 		}
 		e.assignTo(x.Lhs[0], c.arith(op, lt, rt, t, false), st)
+		c.drainSideFacts(st)
 		return
 	}
 	// evaluate RHS
@@ -774,8 +786,11 @@ func (e *Env) fieldAddr(x *ast.SelectorExpr, st *State) (*Term, types.Type, *typ
 			return curRef, curT, f, true
 		}
 		// intermediate embedded field
+		prevT := curT
 		if curRef != nil {
-			curVal = c.loadField(st, curRef, curT, f)
+			if _, isStruct := f.Type().Underlying().(*types.Struct); !isStruct {
+				curVal = c.loadField(st, curRef, curT, f)
+			}
 		} else if sv, ok := curVal.(*StructV); ok {
 			curVal = sv.F[f.Name()]
 		} else {
@@ -790,9 +805,9 @@ func (e *Env) fieldAddr(x *ast.SelectorExpr, st *State) (*Term, types.Type, *typ
 			curRef = r
 			curT = p.Elem()
 		} else {
-			// embedded struct by value inside a heap object: fields live under a sub-object
+			// struct by value inside a heap object: its fields live in a sub-object
 			if curRef != nil {
-				curRef = App("emb$"+structKey(curT), SInt, curRef)
+				curRef = c.embRef(prevT, f, curRef)
 			}
 		}
 	}
@@ -1153,7 +1168,7 @@ func (e *Env) loopCore(st *State, label string, pos token.Pos, body *ast.BlockSt
 	}
 	var decBefore *Term
 	if spec != nil && spec.Decreases != nil {
-		decBefore = c.evalSpecTerm(e, spec.Decreases.Expr, hs, entry, nil)
+		decBefore = c.widen(c.evalSpecTerm(e, spec.Decreases.Expr, hs, entry, nil))
 	}
 	var outs []Outcome
 	// 4. body path
@@ -1182,7 +1197,7 @@ func (e *Env) loopCore(st *State, label string, pos token.Pos, body *ast.BlockSt
 					c.oblige(s2, "inv-pres", fmt.Sprintf("inv-pres(loop %d, %s)", ordinal, inv.label), pos, g, inv.text)
 				}
 				if decBefore != nil {
-					after := c.evalSpecTerm(e, spec.Decreases.Expr, s2, entry, nil)
+					after := c.widen(c.evalSpecTerm(e, spec.Decreases.Expr, s2, entry, nil))
 					c.oblige(s2, "dec", fmt.Sprintf("dec(loop %d)", ordinal), pos,
 						And(c.ilt(after, decBefore), c.ile(c.idxC(0), decBefore)), spec.Decreases.Text)
 				}
@@ -1669,6 +1684,12 @@ func (c *FCtx) mergeStates(sts []*State) *State {
 			if v, ok := s.heap[k]; ok {
 				srt = v.Sort
 			}
+		}
+		if srt == "" {
+			srt = c.keySorts[k]
+		}
+		if srt == "" {
+			continue
 		}
 		for _, s := range sts {
 			v := c.heapGet(s, k, srt)
